@@ -45,6 +45,9 @@ void vx_convert_Mu_M1_M2(M* m, double prec, unsigned it) { m->convert_Mu_M1_M2(p
 void vx_convert_to_onshell(M* m, double prec, unsigned it) { m->convert_to_onshell(prec, it); }
 unsigned vx_find_bino(const M* m) { return gm2calc::detail::find_bino_like_neutralino(m->get_ZN()); }
 unsigned vx_find_right(const M* m) { return gm2calc::detail::find_right_like_smuon(m->get_ZM()); }
+double vx_ml2(const M* m) { return m->get_ml2(1,1); }
+double vx_MSvmL_pole(const M* m) { return m->get_physical().MSvmL; }
+void vx_convert_ml2(M* m) { m->convert_ml2(); }
 void vx_quiet(M* m) { m->verbose_output = false; }
 void vx_calculate_MSm(M* m) { m->calculate_MSm(); }
 void vx_calculate_chi_cha(M* m) { m->calculate_MChi(); m->calculate_MCha(); }
